@@ -1088,7 +1088,10 @@ class TypeBlocks(ContainerOperand):
                     if retain_key_order:
                         indices = (self._index[x] for x in key)
                     else:
-                        indices = (self._index[x] for x in sorted(key))
+                        # negative integers count from the end: normalize to positions before ordering
+                        size = self._shape[1]
+                        indices = (self._index[x] for x in sorted(
+                                k + size if k < 0 else k for k in key))
                 elif key is None: # get all
                     indices = self._index
                 else:
